@@ -589,6 +589,33 @@ def fold_func(prog, f, args, depth=0):
     return None
 
 
+def through_locals(fnode, expr):
+    """Text of expr with every name that the function binds exactly once (plain assignment, not a parameter) replaced by the text of
+    the bound value -- `range(max(1, iterations))` reads as `range(max(1, options.get('iterations', 1)))`."""
+    import copy
+    from .model import walk_no_nested
+    params = {a.arg for a in fnode.args.posonlyargs + fnode.args.args + fnode.args.kwonlyargs}
+    count, value = {}, {}
+    for x in walk_no_nested(fnode):
+        if isinstance(x, ast.Name) and isinstance(x.ctx, (ast.Store, ast.Del)):
+            count[x.id] = count.get(x.id, 0) + 1
+        elif isinstance(x, ast.Assign) and len(x.targets) == 1 and isinstance(x.targets[0], ast.Name):
+            value[x.targets[0].id] = x.value
+        elif isinstance(x, (ast.FunctionDef, ast.ClassDef)) and x is not fnode:
+            count[x.name] = count.get(x.name, 0) + 2
+    single = {n_: v for n_, v in value.items() if count.get(n_) == 1 and n_ not in params}
+
+    class _S(ast.NodeTransformer):
+        def visit_Name(self, node):
+            if isinstance(node.ctx, ast.Load) and node.id in single:
+                return copy.deepcopy(single[node.id])
+            return node
+    e = copy.deepcopy(expr)
+    for _ in range(3):
+        e = _S().visit(e)
+    return norm(e)
+
+
 def try_const(node, env=None, default=None):
     try:
         return const(node, env)
